@@ -267,6 +267,14 @@ def enc(v):
         return {"d": [[enc(k), enc(x)] for k, x in v.items()]}
     if isinstance(v, (set, frozenset)):
         return {"s": sorted((enc(x) for x in v), key=repr)}
+    if isinstance(v, (bytes, bytearray)):
+        return {"b": bytes(v).hex(), "ba": isinstance(v, bytearray)}
+    if isinstance(v, complex):
+        return {"c": [repr(v.real), repr(v.imag)]}
+    if isinstance(v, range):
+        return {"rg": [v.start, v.stop, v.step]}
+    if type(v).__name__ in ("Fraction", "Decimal"):
+        return {"num": type(v).__name__, "v": str(v)}
     return {"r": repr(v)}
 
 
@@ -284,6 +292,17 @@ def dec(v):
             return {dec(k): dec(x) for k, x in v["d"]}
         if "s" in v:
             return frozenset(dec(x) for x in v["s"])
+        if "b" in v:
+            return bytearray.fromhex(v["b"]) if v.get("ba") else bytes.fromhex(v["b"])
+        if "c" in v:
+            return complex(float(v["c"][0]), float(v["c"][1]))
+        if "rg" in v:
+            return range(*v["rg"])
+        if "num" in v:
+            import decimal
+            import fractions
+
+            return fractions.Fraction(v["v"]) if v["num"] == "Fraction" else decimal.Decimal(v["v"])
         raise ValueError(f"cannot decode {v}")
     return v
 
